@@ -351,12 +351,23 @@ func (c *Ctx) run() {
 		bindResults(env, names, results)
 		se := &SpecEnv{c: c, st: st2, vars: env, pkg: ct.Pkg, old: c.entrySnap, fr: fr}
 		for _, cl := range ct.Clauses {
-			if cl.Kind != "ensures" || !c.tagSelected(cl.Tags) {
+			if cl.Kind == "returns" {
+				ty, _ := se.resolveType(cl.Text)
+				for i, n := range names {
+					if n == cl.Callee && i < len(results) {
+						c.obls = append(c.obls, &Obligation{Func: c.fnKey(), Kind: "returns", Name: c.fnKey() + "#returns#" + cl.Callee, Desc: "result " + cl.Callee + " has dynamic type " + cl.Text, Goal: fmt.Sprintf("(= (itag %s) %d)", results[i].S, c.reg.TagOf(ty)), Lines: st2.lines.collect(), Clause: cl, Path: strings.Join(st2.pathDesc, ",")})
+					}
+				}
+			}
+			if cl.Kind != "ensures" {
 				continue
 			}
 			for _, cj := range se.splitConjuncts(cl.E, 0) {
+				// evaluated even when the clause's tags are not selected: evaluation emits the
+				// well-typedness facts of the values it reads, and later proofs must not depend on
+				// which property is being checked
 				g := se.prove(cj)
-				if g == "true" {
+				if g == "true" || !c.tagSelected(cl.Tags) {
 					continue
 				}
 				o := &Obligation{Func: c.fnKey(), Kind: "ensures", Name: c.fnKey() + "#ensures#" + cl.Hash(), Desc: "postcondition: " + cj.String(), Goal: g, Lines: st2.lines.collect(), Clause: cl, Tags: cl.Tags, Path: strings.Join(st2.pathDesc, ",")}
